@@ -58,7 +58,44 @@ def _read_doc(data, n):
     return doc.getobj(n), []
 
 
+def chain_cases():
+    """Single-child chains nested 1000 - 20000 deep (arrays, dictionaries, alternating), written without white space
+    or with some.  They are read under the interpreter's default recursion limit and compared by walking down, so
+    that neither the harness nor a raised limit hides a reader that recurses (or builds a repr) per level."""
+    for n in (1000, 3000, 20000):
+        for pat in ("a", "d", "ad"):
+            for sep in (b"", b" ", b"\n"):
+                kinds = [pat[i % len(pat)] for i in range(n)]
+                head = sep.join(b"[" if k == "a" else b"<</K" for k in kinds)
+                tail = sep.join(b"]" if k == "a" else b">>" for k in reversed(kinds))
+                yield {"mode": "stream", "chain": True, "kinds": "".join(kinds), "data": head + b" 42 " + tail + b" ",
+                       "spelled": head[:60], "bufsizes": [1, 7, 4096], "features": ["chain-depth-%d" % n]}
+
+
+def run_chain(case):
+    classes = ["mode:stream", "f:deep-chain"] + ["f:" + f for f in case["features"]]
+    for b in case["bufsizes"]:
+        try:
+            obj, rest = _with_bufsiz(b, lambda: _read_stream(case["data"]))
+        except BaseException as e:  # RecursionError included
+            return Outcome(classes, True, fail="BUFSIZ=%d: a chain of %d nested containers raised %s: %s; spelled=%r..." % (
+                b, len(case["kinds"]), type(e).__name__, str(e)[:100], case["spelled"]))
+        o = obj
+        for i, k in enumerate(case["kinds"]):
+            ok = (type(o) is list and len(o) == 1) if k == "a" else (type(o) is dict and list(o) == ["K"])
+            if not ok:
+                return Outcome(classes, True, fail="BUFSIZ=%d: level %d of a chain of %d nested containers is %s; spelled=%r..." % (
+                    b, i, len(case["kinds"]), type(o).__name__, case["spelled"]))
+            o = o[0] if k == "a" else o["K"]
+        if o != 42 or type(o) is not int or rest:
+            return Outcome(classes, True, fail="BUFSIZ=%d: innermost value of a chain of %d nested containers is %r (residue %r)" % (
+                b, len(case["kinds"]), o, rest))
+    return Outcome(classes, True, fp=None, sample={"spelled": repr(case["spelled"]), "depth": len(case["kinds"])})
+
+
 def run_case(case):
+    if case.get("chain"):
+        return run_chain(case)
     # the harness's own recursive helpers (serialiser, comparison, JSON encoding) need head-room for the 300-level
     # values of the thorough tier; pdfminer's parser keeps an explicit context stack and does not recurse
     old_limit = sys.getrecursionlimit()
@@ -153,6 +190,7 @@ def plan(tier):
     if not q:
         for i in range(4):
             specs.append({"mode": "stream", "n": 300, "leaves": 1, "str": 20, "deep": True})
+    specs.append({"mode": "stream", "chain": True})
     return specs
 
 
@@ -174,6 +212,10 @@ def deep_cases(seed, n):
 
 
 def run_shard(spec, ctx):
+    if spec.get("chain"):
+        from vlib.runner import enum_search
+
+        return enum_search(ctx, chain_cases(), run_case)
     if spec.get("deep"):
         from vlib.runner import enum_search
 
